@@ -147,8 +147,9 @@ def e2e_job(j):
         if r.rc != 0:
             return dict(viols=[dict(kind="sync-failed", rules=rl, out=r.text()[-300:])], n=0)
         c = L.content()
-        recorded = {f.sub.decode() for f in c.disks[b"d1"].files} | {sub.decode() for k_, sub, to_ in c.disks[b"d1"].links}
-        rec_dirs = {d.decode() for d in c.disks[b"d1"].dirs}
+        d1 = c.disks.get(b"d1")       # (a disk of which nothing was recorded is not saved at all)
+        recorded = ({f.sub.decode() for f in d1.files} | {sub.decode() for k_, sub, to_ in d1.links}) if d1 else set()
+        rec_dirs = {d.decode() for d in d1.dirs} if d1 else set()
         rr = [(d, R.parse(p)) for d, p in rl]
         own = {".content", ".content.lock", ".content.tmp", "sub/content.copy", "sub/content.copy.tmp", "sub/content.copy.lock"}
         want = set()
